@@ -238,6 +238,12 @@ def run_case(case):
         for _ in range(3 * n1 + 10):
             L = int(rng.integers(0, 8))
             words.add("".join(rng.choice(alphabet, size=L)))
+        if rng.random() < .4:
+            # values that differ only by trailing white space (blank, tab, newline): different strings
+            for w0 in list(words)[: 6]:
+                for ws in (" ", "\t", "\n", "  "):
+                    if len(w0) + len(ws) <= 8:
+                        words.add(w0 + ws)
         words = sorted(words)
         pool = np.array(words, dtype=kind + "8")
         a1 = rng.choice(pool, size=min(n1, pool.size), replace=False)
